@@ -46,6 +46,16 @@ SPEC = [
     ("nm_core_chi", "quantecon/optimize/nelder_mead.py", "default", ("_nelder_mead_algorithm", "χ")),
     ("nm_core_gamma", "quantecon/optimize/nelder_mead.py", "default", ("_nelder_mead_algorithm", "γ")),
     ("nm_core_sigma", "quantecon/optimize/nelder_mead.py", "default", ("_nelder_mead_algorithm", "σ")),
+    ("nm_nonzdelt", "quantecon/optimize/nelder_mead.py", "assign_in", ("_initialize_simplex", "nonzdelt")),
+    ("nm_zdelt", "quantecon/optimize/nelder_mead.py", "assign_in", ("_initialize_simplex", "zdelt")),
+    ("lyap_stop", "quantecon/_matrix_eqn.py", "compare_literal_in", ("solve_discrete_lyapunov", "diff")),
+    ("ricc_sys_tolerance", "quantecon/_matrix_eqn.py", "default", ("solve_discrete_riccati_system", "tolerance")),
+    ("ricc_sys_max_iter", "quantecon/_matrix_eqn.py", "default", ("solve_discrete_riccati_system", "max_iter")),
+    ("nnash_tol", "quantecon/_lqnash.py", "default", ("nnash", "tol")),
+    ("nnash_max_iter", "quantecon/_lqnash.py", "default", ("nnash", "max_iter")),
+    ("polym_LOW_AVOIDER", "quantecon/game_theory/howson_lcp.py", "assign_in", ("polym_lcp_solver", "LOW_AVOIDER")),
+    ("lh_max_iter", "quantecon/game_theory/lemke_howson.py", "default", ("lemke_howson", "max_iter")),
+    ("qnwgamma_tol", "quantecon/quad.py", "default", ("_qnwgamma1", "tol")),
 ]
 
 import numpy as _np
@@ -97,6 +107,21 @@ def read_const(file, kind, spec):
             if p.arg == arg and d is not None:
                 return _eval_default(d, tree)
         raise KeyError("%s:%s.%s" % (file, func, arg))
+    if kind == "compare_literal_in":
+        # the unique numeric literal compared with variable VAR inside FUNC (e.g. `while diff > 1e-15`)
+        func, var = spec
+        f = _find_func(tree, func)
+        hits = []
+        for n in ast.walk(f):
+            if isinstance(n, ast.Compare) and len(n.ops) == 1:
+                sides = [n.left, n.comparators[0]]
+                names = [x for x in sides if isinstance(x, ast.Name) and x.id == var]
+                lits = [x for x in sides if isinstance(x, ast.Constant) and isinstance(x.value, (int, float))]
+                if names and lits:
+                    hits.append(lits[0])
+        if len(hits) != 1:
+            raise KeyError("%s:%s compares %s with %d literals" % (file, func, var, len(hits)))
+        return _eval(hits[0])
     if kind == "assign_in":
         func, target = spec
         f = _find_func(tree, func)
